@@ -61,7 +61,7 @@ PROPS = {
                 level_note="trusted and NOT modelled: the Go memory model, atomicity of sync.Pool Get/Put, map iteration and reflect internals of the runtime; trusted: Coq kernel, harness",
                 rule="generated schema objects shared by 16 goroutines, each running Parse / Validate / Collect with its own data, destination (two destination struct layouts per schema) and options under the Go race detector; every result is compared with the result of the same call running alone; distinct = distinct shared schema shapes",
                 families=[dict(name="race", family="race", quick=0, thorough=0, tags=["data_race", "concurrent_result"]),
-                          dict(name="history", family="history", profile="C07", quick=300, thorough=4000, tags=["isolation", "isolation_dirty", "issue_aliased", "panic"])]),
+                          dict(name="history", family="history", profile="C07", quick=400, thorough=5000, tags=["isolation", "isolation_dirty", "issue_aliased", "panic", "nil", "issues", "msg", "dest"])]),
     "C09": dict(theorems=["C09_struct_order_independent_partial", "C09_fields_order_independent_partial", "C09_deep_order_independent_partial", "C09_deep_premise_is_satisfiable", "C09_input_key_order_irrelevant", "C09_error_state_irrelevant_without_transforms", "C09_engine_computes_semantics"], cone=ENGINE_CONE + ["Proofs/Indep.v", "Proofs/DeepOrder.v"], rule=ENGINE_RULE,
                 families=[eng("engine", "C09", 1000, 16000, ["repeat", "repeat_ptgate", "panic"])]),
     "C10": dict(theorems=["C10_map_wf", "C10_paths", "C10_sanitize", "C10_field_key", "C10_nested_source_tag_refuted", "C10_engine_computes_semantics"], cone=ENGINE_CONE + ["Proofs/ErrsP.v", "Proofs/FrontEndsP.v"], rule=ENGINE_RULE,
@@ -110,7 +110,9 @@ PROPS = {
                           "C18_f32_rounds_never_to_infinity", "C18_f32_overflow_rejected"],
                 cone=["Model/Coerce.v", "Proofs/NumericP.v"],
                 rule="every (input representation, numeric schema kind) pair on boundary-directed inputs (+-2^31, +-2^63, 2^24/2^53 neighbours via nextafter, max float32 and successors, decimal/exponent strings, NaN/Inf) plus random bit patterns; the destination is compared bit-exactly with the model and, independently, with an exact big.Rat oracle; the same leaf placed as an element of a []any or of a typed Go slice, as a struct field and behind a pointer must be coerced identically; distinct = distinct (kind, input)",
-                families=[sat("numeric", "numeric", 2500, 40000, ["coerce", "numeric_oracle", "numeric_placement"])]),
+                families=[sat("numeric", "numeric", 2500, 40000, ["coerce", "numeric_oracle", "numeric_placement"]),
+                          # numbers as the front ends deliver them (JSON literals beyond float64, form/query/env strings)
+                          dict(name="fe", family="fe", profile="fe", quick=900, thorough=12000, tags=["nil", "issues", "dest", "panic"])]),
     "C19": dict(theorems=["C19_default_never_changes", "C19_every_use_like_the_first", "C19_legacy_alias_refuted", "C19_validate_writes_only_through_default_catch_pt"],
                 cone=["Model/SliceHeap.v", "Proofs/PurityP.v"] + ENGINE_CONE,
                 rule="generated schemas rich in defaults (incl. slice-valued), catches and destination-mutating PostTransforms; inputs as []any and as typed []string / []int slices; reflect-based fingerprints (unexported fields, slice backing-array addresses) of the schema object graph and of the input before and after each execution; the returned destination is then overwritten everywhere and the fingerprints compared again; a second identical use is compared with the first; Validate on schemas without writers must leave the value as it was; every execution is also compared with the Coq engine; distinct = distinct (schema shape, issue codes, mode)",
